@@ -246,6 +246,39 @@ def run(chk: Check):
                         chk.violation(f"attr:{c.__name__}.{attr}:state-dependent", f"after the device reported {reported!r}: {c.__name__}.{attr} = {v!r} transmits {out!r}: {why}", {"class": c.__name__, "attr": attr, "value": repr(v), "observed": out, "reported": reported})
                         break
 
+    # (e) the interpreter's ambient state plays no part either: the same writes on a thread whose `decimal` context
+    #     (rounding mode, precision) has been changed by unrelated code, as happens on a shared worker thread
+    import decimal
+    import threading
+
+    def under_context(setup, label):
+        def work():
+            setup(decimal.getcontext())
+            for c, attrs in by_class.items():
+                conn = CapConn()
+                inst = c(conn)
+                for attr, f, dec, step, special in attrs:
+                    for v in vals[:40] + [-30.4, 12.6, 1476, 99.12, 101.73, 0.3, -0.3]:
+                        conn.puts.clear()
+                        try:
+                            setattr(inst, attr, v)
+                        except Exception:  # noqa: judged elsewhere
+                            continue
+                        chk.count_case(["attr-ambient", label, c.__name__, attr, repr(v)], True)
+                        out = conn.puts[0][2] if conn.puts else None
+                        why = judge(v, out, dec, step, special)
+                        if why:
+                            chk.violation(f"attr:{c.__name__}.{attr}:ambient-state", f"on a thread whose decimal context has {label}: {c.__name__}.{attr} = {v!r} transmits {out!r}: {why}", {"class": c.__name__, "attr": attr, "value": repr(v), "observed": out, "decimal_context": label})
+                            return
+
+        t = threading.Thread(target=work)
+        t.start()
+        t.join()
+
+    under_context(lambda ctx: setattr(ctx, "rounding", decimal.ROUND_DOWN), "rounding=ROUND_DOWN")
+    under_context(lambda ctx: setattr(ctx, "rounding", decimal.ROUND_UP), "rounding=ROUND_UP")
+    under_context(lambda ctx: setattr(ctx, "prec", 3), "prec=3")
+
     # ------------------------------------------------------------ model correspondence
     validated = 0
     if not any(b["obligation"].startswith(("translator", "compile")) for b in chk.broken):
@@ -337,7 +370,17 @@ def replay(path):
                         for cb in getattr(conn, "cbs", []):
                             cb(_St.OK, f"{inst.id}", fname, text)
                     print("after the device reported", r["reported"])
-                setattr(inst, attr, v)
+                import decimal
+
+                with decimal.localcontext() as ctx:
+                    dc = r.get("decimal_context") or ""
+                    if dc.startswith("rounding="):
+                        ctx.rounding = getattr(decimal, dc.split("=")[1])
+                    elif dc.startswith("prec="):
+                        ctx.prec = int(dc.split("=")[1])
+                    if dc:
+                        print("decimal context of the thread:", dc)
+                    setattr(inst, attr, v)
                 out = conn.puts[0][2]
                 print(f"{c.__name__}.{attr} = {v!r} transmits {out!r}; judged: {judge(v, out, dec, step, special) or 'ok'}")
     return 0
